@@ -1692,6 +1692,44 @@ func scHostile(n *nodis.Nodis, r *rand.Rand, rounds int) string {
 			a.Close()
 		}
 	}
+	// clients that stop reading: megabytes of replies are owed to a peer whose window is full - inside one EXEC, and as a
+	// pipeline of big reads. Whatever the server does with those bytes, it must not do it while it holds something every
+	// other client needs: the canary keeps being served
+	big := strings.Repeat("B", 1<<20)
+	canary.do("SET", "bigv", big)
+	var silent []net.Conn
+	for _, inMulti := range []bool{true, false} {
+		a, err := net.Dial("tcp", addr)
+		if err != nil {
+			return "FAIL dial"
+		}
+		silent = append(silent, a)
+		var p []byte
+		if inMulti {
+			p = append(p, encodeCommand([][]byte{[]byte("MULTI")})...)
+		}
+		for i := 0; i < 48; i++ {
+			p = append(p, encodeCommand([][]byte{[]byte("GET"), []byte("bigv")})...)
+		}
+		if inMulti {
+			p = append(p, encodeCommand([][]byte{[]byte("EXEC")})...)
+		}
+		a.SetWriteDeadline(time.Now().Add(2 * time.Second))
+		a.Write(p) // and never read
+		for k := 0; k < 6; k++ {
+			time.Sleep(100 * time.Millisecond)
+			what := fmt.Sprintf("a client sent %d x GET of a 1 MiB value (inside MULTI/EXEC: %v) and stopped reading", 48, inMulti)
+			if s := check(900000+k, what); s != "" {
+				return s
+			}
+		}
+	}
+	for _, a := range silent {
+		a.Close()
+	}
+	if s := check(999999, "the silent clients went away"); s != "" {
+		return s
+	}
 	return fmt.Sprintf("ok attacks=%d", rounds*len(payloads))
 }
 
@@ -2019,6 +2057,16 @@ func scTCPMultiBPop(addr string, n *nodis.Nodis, rounds int) string {
 		if err != nil {
 			return "FAIL dial"
 		}
+		// a blocking pop that FAILS (one of its keys holds another type) must leave nothing behind either: the
+		// transactions below still get through (a gate taken for the look and not given back on the error path
+		// would stall the next EXEC, and then everybody)
+		o.do("SET", "mb-str", "v")
+		for _, f := range [][]string{{"BLPOP", "mb-empty", "mb-str", "0.05"}, {"BRPOP", "mb-str", "0"}, {"BLPOP", "mb-str", "mb-empty", "0"}} {
+			g, err := o.do(f...)
+			if err != nil || len(g) != 1 || g[0].kind != '-' {
+				return fmt.Sprintf("FAIL %v on a key holding a string replied %v %v, not an error", f, g, err)
+			}
+		}
 		for fi := range forms {
 			// one form alone, then (last iteration) all of them in one transaction
 			sel := [][]string{forms[fi]}
@@ -2071,3 +2119,76 @@ func scTCPMultiBPop(addr string, n *nodis.Nodis, rounds int) string {
 }
 
 func init() { scenarios["tcp-multi-bpop"] = tcpScenario(scTCPMultiBPop) }
+
+// ---- blocking pops after a history of blocking pops (C18) ---------------------------------------------
+
+// Whatever blocking pops have come and gone before (several keys each, served at once, served by a push, timed out), a
+// client that is blocked now is woken by the next push to its key. Every case starts from a fresh instance, so that
+// bookkeeping left behind by the history (counters, registry entries) meets exactly the number of waiters that exposes it.
+func scBPopHistory(_ *nodis.Nodis, r *rand.Rand, rounds int) string {
+	tick := func() { atomic.AddUint64(&progress, 1) }
+	cases := 0
+	for round := 0; round < rounds; round++ {
+		for _, hist := range [][2]int{{2, 1}, {2, 2}, {3, 1}, {2, 3}, {4, 1}, {1, 2}} { // keys per earlier pop, number of earlier pops
+			for waiters := 1; waiters <= 4; waiters++ {
+				n := nodis.Open(&nodis.Options{Storage: storage.NewMemory()})
+				k, m := hist[0], hist[1]
+				for j := 0; j < m; j++ {
+					keys := make([]string, k)
+					for i := range keys {
+						keys[i] = fmt.Sprintf("h%d-%d", j, i)
+					}
+					switch (j + round) % 3 {
+					case 0: // times out
+						if key, _ := n.BLPop(15*time.Millisecond, keys...); key != "" {
+							return "FAIL a blocking pop on empty keys returned a key"
+						}
+					case 1: // served at once from its last key
+						n.RPush(keys[k-1], []byte("x"))
+						if key, v := n.BRPop(time.Second, keys...); key != keys[k-1] || string(v) != "x" {
+							return fmt.Sprintf("FAIL BRPOP %v with an element in the last key returned %q %q", keys, key, v)
+						}
+					default: // served by a push while it waits
+						got := make(chan string, 1)
+						go func() { key, _ := n.BLPop(3*time.Second, keys...); got <- key }()
+						time.Sleep(10 * time.Millisecond)
+						n.LPush(keys[0], []byte("y"))
+						select {
+						case key := <-got:
+							if key != keys[0] {
+								return fmt.Sprintf("FAIL BLPOP %v woken by a push to %s returned key %q", keys, keys[0], key)
+							}
+						case <-time.After(2 * time.Second):
+							return fmt.Sprintf("FAIL BLPOP %v was not served within 2 s of a push to %s", keys, keys[0])
+						}
+					}
+				}
+				// now `waiters` clients block, each on its own key, for ever; every one of them is woken by a push
+				got := make(chan string, waiters)
+				for w := 0; w < waiters; w++ {
+					go func(w int) {
+						_, v := n.BLPop(0, fmt.Sprintf("wq%d", w))
+						got <- string(v)
+					}(w)
+				}
+				time.Sleep(15 * time.Millisecond)
+				for w := 0; w < waiters; w++ {
+					n.RPush(fmt.Sprintf("wq%d", w), []byte(fmt.Sprintf("e%d", w)))
+				}
+				for w := 0; w < waiters; w++ {
+					select {
+					case <-got:
+					case <-time.After(2 * time.Second):
+						return fmt.Sprintf("FAIL after %d earlier blocking pops on %d keys each had come and gone, %d clients blocked on one key each (timeout 0) and an element was pushed to every key: 2 s later only %d of them had been served (missed wake-up)", m, k, waiters, w)
+					}
+				}
+				cases++
+				tick()
+				_ = n.Close()
+			}
+		}
+	}
+	return fmt.Sprintf("ok cases=%d", cases)
+}
+
+func init() { scenarios["bpop-history"] = scBPopHistory }
